@@ -529,6 +529,20 @@ func (q *checker) bcheckAssignment(lhs *a.Expr, op t.ID, rhs *a.Expr) error {
 		return nil
 	}
 
+	// A store to an element, like "a[i] = etc", can change the value of
+	// a[j], or of s[k] for a slice s that overlaps a. Without alias analysis,
+	// drop every fact involving an element of a, or of any slice.
+	if container, _, ok := lhs.IsIndex(); ok {
+		if err := q.facts.update(func(x *a.Expr) (*a.Expr, error) {
+			if mentionsPossiblyAliasedElement(x, container) {
+				return nil, nil
+			}
+			return x, nil
+		}); err != nil {
+			return err
+		}
+	}
+
 	if op == t.IDEq {
 		if err := q.facts.dropAnyFactsMentioning(lhs); err != nil {
 			return err
@@ -645,6 +659,26 @@ func (q *checker) bcheckAssignment(lhs *a.Expr, op t.ID, rhs *a.Expr) error {
 	}
 
 	return nil
+}
+
+// mentionsPossiblyAliasedElement returns whether n contains an index
+// expression, like "c[i]", whose value can be changed by a store to an element
+// of container: c is container itself or either one is a slice.
+func mentionsPossiblyAliasedElement(n *a.Expr, container *a.Expr) bool {
+	containerIsSlice := container.MType().IsEitherSliceType()
+	found := false
+	n.AsNode().Walk(func(o *a.Node) error {
+		if o.Kind() != a.KExpr {
+			return nil
+		}
+		if c, _, ok := o.AsExpr().IsIndex(); ok {
+			if containerIsSlice || c.MType().IsEitherSliceType() || c.Eq(container) {
+				found = true
+			}
+		}
+		return nil
+	})
+	return found
 }
 
 func (q *checker) bcheckAssignment1(lhs *a.Expr, lTyp *a.TypeExpr, op t.ID, rhs *a.Expr) (bounds, error) {
